@@ -163,6 +163,15 @@ class Event:
     def __hash__(self) -> int:
         return self._h
 
+    def __getstate__(self):
+        return (self.kind, self.site, self.data)
+
+    def __setstate__(self, state):
+        object.__setattr__(self, "kind", state[0])
+        object.__setattr__(self, "site", state[1])
+        object.__setattr__(self, "data", state[2])
+        object.__setattr__(self, "_h", hash(state))
+
     def __eq__(self, other) -> bool:
         return isinstance(other, Event) and self._h == other._h and self.kind == other.kind and self.site == other.site and self.data == other.data
 
@@ -189,7 +198,7 @@ def configure(muted: set, ctx_keys: set) -> None:
 
 
 class State:
-    __slots__ = ("frames", "objs", "facts", "trace", "stack", "calls", "thash", "next_fid", "next_tid", "txn", "loop", "cur")
+    __slots__ = ("frames", "objs", "facts", "trace", "stack", "calls", "thash", "next_fid", "next_tid", "txn", "loop", "loopopt", "cur")
 
     def __init__(self) -> None:
         self.frames: dict[int, dict] = {}
@@ -203,6 +212,7 @@ class State:
         self.next_tid = 1
         self.txn: tuple = ()         # stack of open Txn ids
         self.loop = 0
+        self.loopopt = 0
         self.cur = 0                 # current frame id
 
     def copy(self) -> "State":
@@ -218,6 +228,7 @@ class State:
         s.next_tid = self.next_tid
         s.txn = self.txn
         s.loop = self.loop
+        s.loopopt = self.loopopt
         s.cur = self.cur
         return s
 
@@ -229,7 +240,7 @@ class State:
             len(self.trace), self.thash,
             self.txn,
             self.cur,
-            self.loop,
+            self.loop, self.loopopt,
         )
 
     # heap ------------------------------------------------------------------
@@ -243,6 +254,12 @@ class State:
 
     def set_attr(self, ref: Ref, name: str, val) -> None:
         self.objs[ref.oid] = self.objs[ref.oid].set(name, val)
+
+    def lp(self):
+        """loop multiplicity of an effect: False (exactly once) | 'n' (at least once) | 'opt' (zero or more)"""
+        if not self.loop:
+            return False
+        return "opt" if self.loopopt else "n"
 
     def emit(self, e: Event) -> None:
         if e.kind in MUTED:
